@@ -97,7 +97,7 @@ class Increments(Machine):
                        "rank_deficient_with_more_samples_than_features", "one_iterator_feeds_constructor_and_increments",
                        "integer_dtype_samples", "first_batch_of_one_sample_centred", "first_batch_of_one_sample_uncentred",
                        "verbose_increment", "sibling_model_built_from_parts_and_incremented",
-                       "direction_with_variance_far_below_the_cut_off")
+                       "direction_with_variance_far_below_the_cut_off", "mean_a_million_times_the_spread")
 
     @classmethod
     def _cfg(cls, rng):
@@ -112,6 +112,9 @@ class Increments(Machine):
                 cfg["n0"] = 1       # a model that starts from a single sample
             if fam == "pca_vec" and rng.random() < 0.12:
                 cfg["intdata"] = 1  # whole-number data handed over as an integer array
+                cfg["scale_exp"] = 0
+            if cfg["centred"] and rng.random() < 0.1:
+                cfg["far"] = 1      # observations far from the origin compared with their spread (map coordinates, timestamps)
                 cfg["scale_exp"] = 0
             if rng.random() < 0.1:
                 cfg["flat32"] = 1   # one feature is twice another up to single-precision rounding, in every sample
@@ -206,9 +209,17 @@ class Increments(Machine):
             else:
                 ctx.probe("pca_uncentred")
             X = X * 10.0 ** cfg.get("scale_exp", 0)
+            if cfg.get("far") and cfg["centred"] and not cfg.get("intdata"):
+                X = X + 2e6 * float(np.abs(X).std()) * np.where(np.arange(d) % 2, 1.0, -0.7)
+                ctx.probe("mean_a_million_times_the_spread")
             if cfg.get("intdata"):
                 X = np.round(X * 4.0)
                 ctx.probe("integer_dtype_samples")
+            if cfg.get("far"):
+                # (together with a feature that doubles another for the first samples only, the offset would become a
+                # jump of millions of spreads in one direction - every other eigenvalue then falls below the relative
+                # cut-off, the numerical cliff of 10.8's last item)
+                cfg = dict(cfg, flat=0, flat32=0)
             if cfg.get("flat32") and d >= 2 and not cfg.get("intdata"):
                 # a direction whose variance is ~1e-15 of the largest: far below the decompositions' 1e-10 cut-off
                 # (three and more orders away from it on either side, so which side it falls on is not in question)
